@@ -129,14 +129,14 @@ class Engine:
     """One scheduler + n real DataManagers sharing the real FileManager."""
 
     def __init__(self, base_dir, names, min_wait, delays=None, tie_seed=0, deep=False, watchdog_s=30.0,
-                 initial=None):
+                 initial=None, jitter=None):
         from mpf.core import data_manager as dm_mod
         from mpf.core import file_manager as fm_mod
         from mpf.file_interfaces import yaml_interface as yi_mod
         self.dm_mod, self.fm_mod, self.yi_mod = dm_mod, fm_mod, yi_mod
         self.base = base_dir
         self.names = list(names)
-        self.sched = Sched(delays=delays, tie_seed=tie_seed, watchdog_s=watchdog_s)
+        self.sched = Sched(delays=delays, tie_seed=tie_seed, watchdog_s=watchdog_s, jitter=jitter)
         self.stopper = self.sched.event()
         self.machine = stub_machine(base_dir, self.names, self.stopper)
         self.managers = []
